@@ -218,7 +218,8 @@ def run_op(ctx, name, m, ft, src, warmed=False):
     try:
         OPS[name](c, ft)
     except Exception as e:
-        ctx.violation('operation-raises/%s/%s' % (name, type(e).__name__), '%s: %r' % (src, e), {'smiles': src, 'op': name})
+        tag = '/n-metalated-azole' if type(e).__name__ == 'InvalidAromaticRing' and G.n_metalated_azole(m) else ''
+        ctx.violation('operation-raises/%s/%s%s' % (name, type(e).__name__, tag), '%s: %r' % (src, e), {'smiles': src, 'op': name})
         return None
     ctx.count('ops.executed')
     return c
